@@ -31,8 +31,12 @@ var hostileKeys = []string{"a", "b", "k", "0", "1", "10", "k ", " k", "a/b", "b/
 
 // keyAlphabet returns base, or (one case in four) the hostile alphabet.
 func keyAlphabet(r *rand.Rand, base []string) []string {
-	if r.Intn(4) == 0 {
+	switch x := r.Intn(8); {
+	case x < 2:
 		return hostileKeys
+	case x == 2 && len(auto.Keys) > 0:
+		// a few ordinary keys plus literals of the tree under test
+		return append(append([]string{}, base[:3]...), autoKeys(r, 5)...)
 	}
 	return base
 }
